@@ -106,6 +106,8 @@ static int dispatch_hand(char **tok, int nt) {
   if (IS("GetRadioNuclideDataByIndex", 1)) { int k = atoi(tok[1]); BEGIN(); struct radioNuclideData *c = GetRadioNuclideDataByIndex(k, &e); if (c) { pr_rnd(c); FreeRadioNuclideData(c); } END(); return 1; }
   if (IS("GetRadioNuclideDataList", 0)) { BEGIN(); int n = 0; char **l = GetRadioNuclideDataList(&n, &e); if (l) pr_list(l, n); END(); return 1; }
   if (IS("Refractive_Index", 3)) { char *s = ps(tok[1]); double E = pd(tok[2]), d = pd(tok[3]); BEGIN(); xrlComplex r = Refractive_Index(s, E, d, &e); pr_d(r.re); pr_d(r.im); END(); return 1; }
+  if (IS("Atomic_FactorsM", 5)) { int Z = atoi(tok[1]); double E = pd(tok[2]), q = pd(tok[3]), df = pd(tok[4]); int mk = atoi(tok[5]); double f0 = 0, fp = 0, fpp = 0;
+    BEGIN(); int r = Atomic_Factors(Z, E, q, df, (mk & 1) ? &f0 : NULL, (mk & 2) ? &fp : NULL, (mk & 4) ? &fpp : NULL, &e); pr_i(r); if (r) { pr_d(f0); pr_d(fp); pr_d(fpp); } END(); return 1; }
   if (IS("Atomic_Factors", 4)) { int Z = atoi(tok[1]); double E = pd(tok[2]), q = pd(tok[3]), df = pd(tok[4]); double f0 = 0, fp = 0, fpp = 0;
     BEGIN(); int r = Atomic_Factors(Z, E, q, df, &f0, &fp, &fpp, &e); pr_i(r); if (r) { pr_d(f0); pr_d(fp); pr_d(fpp); } END(); return 1; }
   if (IS("Crystal_GetCrystalsList", 0)) { BEGIN(); int n = 0; char **l = Crystal_GetCrystalsList(carr, &n, &e); if (l) pr_list(l, n); END(); return 1; }
